@@ -16,7 +16,7 @@ MANIFEST = dict(
         "dyadic data for linear/rectifier, bit-for-bit outputs and 1e-12-toleranced gradients for tanh/logistic/fast-sigmoid/"
         "softmax/normalizer, in-harness oracle for batch-vs-single, state-vs-stateless, combined-vs-separate derivative calls, "
         "parameter round trip."),
-  note=TRUST + "PARTIAL: only LinearModel (all activations), NeuronLayer (normalizer, softmax) and two-layer ConcatenatedModel are modelled; "
+  note=TRUST + "PARTIAL: only LinearModel (all activations), NeuronLayer (element-wise, normalizer, softmax) and ConcatenatedModel chains (any length, optimised or frozen layers) are modelled; "
        "convolution, pooling, resize, RBF, CMAC, Normalizer model, Classifier, KernelExpansion, Ensemble are not covered yet; "
        "floating-point rounding is not modelled.",
   technique="Lean 4 proofs (exact algebra over Rat, HasDerivAt/chain rule over Real) + exact / bit-exact differential correspondence with the C++ models",
@@ -57,6 +57,26 @@ def gen_concat(r, exact):
     return f"concat {a1} {h1} {a2} {h2} {nIn} {nHid} {nOut} {B} | {vec(r, np_, -2, 2, 1)} | {vec(r, B * nIn, -2, 2, 1)} | {vec(r, B * nOut, -2, 2, 1)}"
 
 
+def gen_chain(r, exact):
+    """ConcatenatedModel of 2-4 layers: dense / element-wise neuron / softmax / normalizer layers, each optimised or frozen"""
+    acts = EXACT_ACTS if exact else ACTS
+    B = r.choice([1, 2, 3]); nIn = r.range(1, 3)
+    specs, n, npar = [], nIn, 0
+    L = r.range(2, 4)
+    for li in range(L):
+        x = r.below(10)
+        if x < 6 or (li == L - 1 and npar == 0):
+            act = r.choice(acts); hb = r.below(2); nOut = r.range(1, 3); opt = 0 if r.chance(1, 4) else 1
+            specs.append(f"d:{act}:{hb}:{nOut}:{opt}"); npar += nOut * n + (nOut if hb else 0); n = nOut
+        elif x < 8 or exact:
+            specs.append(f"n:{r.choice(acts)}:{r.below(2)}")
+        else:
+            # softmax is always fine; the normalizer needs rows that do not sum to 0, so only directly after a logistic layer
+            prev_logistic = specs and specs[-1].split(":")[1] == "logistic"
+            specs.append(f"r:{'normalizer' if (prev_logistic and r.chance(1, 2)) else 'softmax'}:{r.below(2)}")
+    return f"chain {B} {nIn} | {' '.join(specs)} | {vec(r, npar, -2, 2, 1)} | {vec(r, B * nIn, -2, 2, 1)} | {vec(r, B * n, -2, 2, 1)}"
+
+
 def gen_rowact(r):
     kind = r.choice(["normalizer", "softmax"]); n = r.range(1, 5); B = r.range(1, 4)
     lo = 1 if kind == "normalizer" else -3      # normalizer rows must not sum to 0
@@ -65,7 +85,7 @@ def gen_rowact(r):
 
 def _parse_fields(line):
     out = {}
-    for tok in re.finditer(r"(\w+)=((?:[^ =]| (?![A-Z]+=))*)", line):
+    for tok in re.finditer(r"(\w+)=((?:[^ =]| (?![A-Z][A-Z0-9]*=))*)", line):
         out[tok.group(1)] = tok.group(2)
     return out
 
@@ -83,7 +103,7 @@ def cmp_tol(a, b):
     if fa.keys() != fb.keys(): return False
     for k in fa:
         if fa[k] == fb[k]: continue
-        if k not in ("GP", "GX", "D"): return False
+        if k not in ("GP", "GX", "D", "GP2", "GX2"): return False
         xa = [_num(t) for row in fa[k].split(";") for t in row.split(",") if t.strip()]
         xb = [_num(t) for row in fb[k].split(";") for t in row.split(",") if t.strip()]
         if len(xa) != len(xb): return False
@@ -92,7 +112,7 @@ def cmp_tol(a, b):
 
 
 def classify(ops, res):
-    kinds = sorted({" ".join(o.split()[:2]) for o in ops if not o.startswith("mode")})
+    kinds = sorted({(o.split()[0] if o.startswith("chain") else " ".join(o.split()[:2])) for o in ops if not o.startswith("mode")})
     if res.crash:
         return f"crash:{'+'.join(kinds)}", f"harness aborted on {ops}"
     if res.oracle:
@@ -115,9 +135,10 @@ def run(ctx):
         return
     r = ctx.rng.fork("c04")
     per = 60 if ctx.quick else 800
-    exact_cases = [["mode rat", gen_dense(r, True)] for _ in range(per)] + [["mode rat", gen_concat(r, True)] for _ in range(per)]
+    exact_cases = [["mode rat", gen_dense(r, True)] for _ in range(per)] + [["mode rat", gen_concat(r, True)] for _ in range(per)] + \
+                  [["mode rat", gen_chain(r, True)] for _ in range(per)]
     float_cases = [["mode float", gen_dense(r, False)] for _ in range(per)] + [["mode float", gen_concat(r, False)] for _ in range(per)] + \
-                  [["mode float", gen_rowact(r)] for _ in range(per)]
+                  [["mode float", gen_rowact(r)] for _ in range(per)] + [["mode float", gen_chain(r, False)] for _ in range(2 * per)]
     for c in exact_cases + float_cases:
         ctx.hist("op_kinds", c[0].split()[1] + ":" + " ".join(c[1].split()[:2]))
     ctx.cov["evaluations"] = len(exact_cases) + len(float_cases)
